@@ -18,7 +18,7 @@ exists so that "extract helper" / "inline helper" refactorings are invisible to 
 import ast
 import copy
 
-from .atoms import KNOWN_ATOMS
+from .atoms import KNOWN_ATOMS, KNOWN_CONSTANTS, is_atom
 
 MAX_DEPTH = 4
 MAX_HELPER_STMTS = 40
@@ -160,7 +160,7 @@ class Flattener:
     def helper_of(self, call, local_defs):
         f = call.func
         if isinstance(f, ast.Attribute) and isinstance(f.value, ast.Name) and f.value.id in ("cls", "self") and self.fi.cls is not None \
-                and f.attr.startswith("_") and not f.attr.startswith("__") and f.attr not in KNOWN_ATOMS:
+                and not is_atom(f.attr):
             # a private method of the same class (resolved along the MRO of the defining class)
             if any(isinstance(a, ast.Starred) for a in call.args):
                 return None
@@ -170,7 +170,7 @@ class Flattener:
                 g = None
             if g is None or g.qualname in self.stack or g.qualname == self.fi.qualname:
                 return None
-            node = g.raw_node
+            node = const_substituted(self.ix, g)
             decos = [ast.unparse(d) for d in node.decorator_list]
             if any(d not in ("classmethod", "staticmethod") for d in decos):
                 return None
@@ -192,7 +192,7 @@ class Flattener:
         if f.id in local_defs:
             g = local_defs[f.id]
             return g if self._ok_def(g) else None
-        if not f.id.startswith("_") or f.id.startswith("__") or f.id in KNOWN_ATOMS:
+        if is_atom(f.id):
             return None
         r = self.ix.resolve_in(self.fi, f.id)
         if not r or r[0] != "func":
@@ -200,12 +200,62 @@ class Flattener:
         g = r[1]
         if g.cls is not None or g.qualname in self.stack or g.qualname == self.fi.qualname:
             return None
-        if g.module != self.fi.module:
-            return None         # the helper's free names would be resolved in the wrong module (arrnf substitutes those)
-        if g.name in KNOWN_ATOMS:
+        if is_atom(g.name):
             return None
         node = g.node if self.depth + 1 < MAX_DEPTH else g.raw_node       # helpers are flattened first
-        return node if self._ok_def(node) else None
+        if not self._ok_def(node):
+            return None
+        if g.module != self.fi.module and not self._graft_scope(g, node):
+            return None         # a free name of the helper means something else in the caller
+        return node
+
+    def _graft_scope(self, g, node):
+        """a helper of another module: every free name of its body must mean in the caller what it means in the helper's module;
+        names the caller does not know are added to the caller's (function-local) import table"""
+        import builtins
+        bound = {n.id for n in ast.walk(node) if isinstance(n, ast.Name) and isinstance(n.ctx, (ast.Store, ast.Del))}
+        bound |= {a.arg for n in ast.walk(node) if isinstance(n, ast.arguments)
+                  for a in n.posonlyargs + n.args + n.kwonlyargs + ([n.vararg] if n.vararg else []) + ([n.kwarg] if n.kwarg else [])}
+        bound |= {s.name for s in ast.walk(node) if isinstance(s, (ast.FunctionDef, ast.ClassDef)) and s is not node}
+        bound |= {h.name for h in ast.walk(node) if isinstance(h, ast.ExceptHandler) and h.name}
+        for n in ast.walk(node):
+            if isinstance(n, (ast.Import, ast.ImportFrom)):
+                bound |= {(a.asname or a.name).split(".")[0] for a in n.names}
+        free = {n.id for n in ast.walk(node) if isinstance(n, ast.Name) and isinstance(n.ctx, ast.Load)} - bound
+        caller_locals = getattr(self, "_caller_locals", None)
+        if caller_locals is None:
+            raw = self.fi.raw_node
+            caller_locals = {n.id for n in ast.walk(raw) if isinstance(n, ast.Name) and isinstance(n.ctx, (ast.Store, ast.Del))}
+            caller_locals |= {a.arg for n in ast.walk(raw) if isinstance(n, ast.arguments)
+                              for a in n.posonlyargs + n.args + n.kwonlyargs + ([n.vararg] if n.vararg else []) + ([n.kwarg] if n.kwarg else [])}
+            self._caller_locals = caller_locals
+        graft = {}
+        for nm in sorted(free):
+            try:
+                rg = self.ix.resolve_in(g, nm)
+            except Exception:  # noqa
+                return False
+            if rg is None:
+                if hasattr(builtins, nm):
+                    if nm in caller_locals:
+                        return False
+                    continue
+                return False
+            if nm in caller_locals:
+                return False
+            try:
+                rc = self.ix.resolve_in(self.fi, nm)
+            except Exception:  # noqa
+                return False
+            if rc is None:
+                li = self.ix.func_imports(g)
+                graft[nm] = li[nm] if nm in li else ("attr", g.module, nm)
+                continue
+            same = rc[0] == rg[0] and (rc[1] is rg[1] if rc[0] in ("func", "class", "value") else rc[1:] == rg[1:])
+            if not same:
+                return False
+        self.ix.func_imports(self.fi).update(graft)
+        return True
 
     @staticmethod
     def _ok_def(node, allow_decorators=False):
@@ -373,6 +423,330 @@ class Flattener:
         return s
 
 
+
+# ---------------------------------------------------------------------------------------------------- named constants
+MUTATING = {"append", "extend", "insert", "remove", "pop", "clear", "update", "add", "discard", "setdefault", "popitem", "sort",
+            "reverse", "__setitem__", "__delitem__"}
+CONTAINER_CTORS = {"tuple": ast.Tuple, "list": ast.List, "set": ast.Set, "frozenset": ast.Set}
+
+
+def _package_facts(ix):
+    """(identifiers that are the receiver of a mutating operation / rebinding somewhere in the package,
+        attribute names stored more than once) -- a named constant must be in neither"""
+    facts = getattr(ix, "_const_facts", None)
+    if facts is not None:
+        return facts
+    mutated, attr_stores = set(), {}
+    for mi in ix.all_modules().values():
+        for n in ast.walk(mi.tree):
+            if isinstance(n, ast.Call) and isinstance(n.func, ast.Attribute) and n.func.attr in MUTATING:
+                r = n.func.value
+                if isinstance(r, ast.Name):
+                    mutated.add(r.id)
+                elif isinstance(r, ast.Attribute):
+                    mutated.add(r.attr)
+            elif isinstance(n, (ast.Assign, ast.AugAssign, ast.Delete, ast.AnnAssign)):
+                tg = n.targets if isinstance(n, (ast.Assign, ast.Delete)) else [n.target]
+                for t in tg:
+                    for tt in ast.walk(t):
+                        if isinstance(tt, ast.Subscript):
+                            r = tt.value
+                            if isinstance(r, ast.Name):
+                                mutated.add(r.id)
+                            elif isinstance(r, ast.Attribute):
+                                mutated.add(r.attr)
+                        elif isinstance(tt, ast.Attribute) and isinstance(tt.ctx, (ast.Store, ast.Del)):
+                            attr_stores[tt.attr] = attr_stores.get(tt.attr, 0) + 1
+                    if isinstance(n, ast.AugAssign) and isinstance(t, ast.Name):
+                        mutated.add(t.id)
+            elif isinstance(n, ast.Global):
+                mutated.update(n.names)
+            elif isinstance(n, ast.Call) and isinstance(n.func, ast.Name) and n.func.id in ("setattr", "delattr") and len(n.args) >= 2 \
+                    and isinstance(n.args[1], ast.Constant):
+                attr_stores[n.args[1].value] = attr_stores.get(n.args[1].value, 0) + 2
+    for mi in ix.all_modules().values():
+        for ci in mi.classes.values():
+            for st in ci.node.body:
+                if isinstance(st, ast.Assign):
+                    for t in st.targets:
+                        if isinstance(t, ast.Name):
+                            attr_stores[t.id] = attr_stores.get(t.id, 0) + 1
+    ix._const_facts = (mutated, attr_stores)
+    return ix._const_facts
+
+
+def _module_single_assigns(ix, modname):
+    cache = getattr(ix, "_const_mod", None)
+    if cache is None:
+        cache = ix._const_mod = {}
+    if modname in cache:
+        return cache[modname]
+    mi = ix.module(modname)
+    count, value = {}, {}
+
+    def scan(stmts, top):
+        for st in stmts:
+            if isinstance(st, ast.Assign):
+                for t in st.targets:
+                    for tt in ast.walk(t):
+                        if isinstance(tt, ast.Name):
+                            count[tt.id] = count.get(tt.id, 0) + 1
+                            if top and t is tt:
+                                value[tt.id] = st.value
+            elif isinstance(st, (ast.AnnAssign, ast.AugAssign)) and isinstance(st.target, ast.Name):
+                count[st.target.id] = count.get(st.target.id, 0) + 2
+            elif isinstance(st, (ast.If, ast.Try, ast.For, ast.While, ast.With)):
+                for fld in ("body", "orelse", "finalbody"):
+                    scan(getattr(st, fld, []) or [], False)
+                for h in getattr(st, "handlers", []) or []:
+                    scan(h.body, False)
+                if isinstance(st, ast.For):
+                    for tt in ast.walk(st.target):
+                        if isinstance(tt, ast.Name):
+                            count[tt.id] = count.get(tt.id, 0) + 2
+            elif isinstance(st, (ast.FunctionDef, ast.ClassDef, ast.AsyncFunctionDef)):
+                count[st.name] = count.get(st.name, 0) + 2
+            elif isinstance(st, (ast.Import, ast.ImportFrom)):
+                for a in st.names:
+                    nm = (a.asname or a.name).split(".")[0]
+                    count[nm] = count.get(nm, 0) + 2
+    scan(mi.tree.body, True)
+    cache[modname] = {k: v for k, v in value.items() if count.get(k) == 1}
+    return cache[modname]
+
+
+def _same_binding(ix, fi, defmod, name):
+    """does `name` mean in fi's scope what it means at top level of module defmod?"""
+    try:
+        a = ix.resolve_in(fi, name)
+        b = ix.resolve(defmod, name)
+    except Exception:  # noqa
+        return False
+    if a is None and b is None:
+        import builtins
+        return hasattr(builtins, name)
+    if a is None or b is None or a[0] != b[0]:
+        return False
+    if a[0] in ("func", "class"):
+        return a[1] is b[1]
+    if a[0] == "value":
+        return a[1] is b[1]
+    return a[1:] == b[1:]
+
+
+class _ConstValue:
+    """conversion of the defining expression of a named constant into a display that can stand at the place of use"""
+
+    def __init__(self, ix, fi, local_names):
+        self.ix, self.fi, self.local = ix, fi, local_names
+        self.mutated, self.attr_stores = _package_facts(ix)
+
+    def named(self, name, modname, depth=0):
+        """display for the module-level name `name` of module modname, or None"""
+        if depth > 4 or name in KNOWN_CONSTANTS or name in self.mutated or (name.startswith("__") and name.endswith("__")):
+            return None
+        e = _module_single_assigns(self.ix, modname).get(name)
+        if e is None:
+            return None
+        return self.convert(e, modname, depth, top=True)
+
+    def convert(self, e, modname, depth, top=False):
+        if isinstance(e, ast.Constant):
+            if top and not isinstance(e.value, str):
+                return None                     # numbers (column indices, physical constants) keep their names
+            return copy.deepcopy(e)
+        if isinstance(e, (ast.Tuple, ast.List, ast.Set)):
+            out = []
+            for x in e.elts:
+                if isinstance(x, ast.Starred):
+                    v = self.convert(x.value, modname, depth)
+                    if not isinstance(v, (ast.Tuple, ast.List, ast.Set)):
+                        return None
+                    out.extend(v.elts)
+                    continue
+                v = self.convert(x, modname, depth)
+                if v is None:
+                    return None
+                out.append(v)
+            new = type(e)(elts=out)
+            if not isinstance(e, ast.Set):
+                new.ctx = ast.Load()
+            return new
+        if isinstance(e, ast.Dict):
+            ks, vs = [], []
+            for k, v in zip(e.keys, e.values):
+                if k is None:
+                    d = self.convert(v, modname, depth)
+                    if not isinstance(d, ast.Dict):
+                        return None
+                    ks.extend(d.keys)
+                    vs.extend(d.values)
+                    continue
+                k2, v2 = self.convert(k, modname, depth), self.convert(v, modname, depth)
+                if k2 is None or v2 is None:
+                    return None
+                ks.append(k2)
+                vs.append(v2)
+            return ast.Dict(keys=ks, values=vs)
+        if isinstance(e, ast.Call) and isinstance(e.func, ast.Name) and e.func.id in CONTAINER_CTORS and not e.keywords:
+            if not e.args:
+                return CONTAINER_CTORS[e.func.id](elts=[], ctx=ast.Load()) if e.func.id in ("tuple", "list") else None
+            if len(e.args) != 1:
+                return None
+            v = self.convert(e.args[0], modname, depth)
+            if not isinstance(v, (ast.Tuple, ast.List, ast.Set)):
+                return None
+            new = CONTAINER_CTORS[e.func.id](elts=v.elts)
+            if not isinstance(new, ast.Set):
+                new.ctx = ast.Load()
+            return new
+        if isinstance(e, ast.BinOp) and isinstance(e.op, ast.Add):
+            a, b = self.convert(e.left, modname, depth), self.convert(e.right, modname, depth)
+            if isinstance(a, (ast.Tuple, ast.List)) and type(a) is type(b):
+                return type(a)(elts=a.elts + b.elts, ctx=ast.Load())
+            if isinstance(a, ast.Constant) and isinstance(b, ast.Constant) and isinstance(a.value, str) and isinstance(b.value, str):
+                return ast.Constant(value=a.value + b.value)
+            return None
+        if isinstance(e, ast.Name):
+            v = self.named(e.id, modname, depth + 1)
+            if v is not None:
+                return v
+            # any other name (a column index, a class, a function) stays a name -- if it means the same at the place of use
+            if e.id in self.local or not _same_binding(self.ix, self.fi, modname, e.id):
+                return None
+            return copy.deepcopy(e)
+        if isinstance(e, ast.Attribute) or (isinstance(e, ast.UnaryOp) and isinstance(e.operand, ast.Constant)):
+            names = [n.id for n in ast.walk(e) if isinstance(n, ast.Name)]
+            if all(nm not in self.local and _same_binding(self.ix, self.fi, modname, nm) for nm in names):
+                return copy.deepcopy(e)
+            return None
+        return None
+
+
+class _ConstSubst(ast.NodeTransformer):
+    """uses of named constants (module level: NAME, mod.NAME; class level: cls.NAME / self.NAME / Class.NAME) are replaced by the
+    constant's display; `display[const]`, `{...}[var]` and starred displays are folded"""
+
+    def __init__(self, ix, fi, node):
+        self.ix, self.fi = ix, fi
+        self.local = {n.id for n in ast.walk(node) if isinstance(n, ast.Name) and isinstance(n.ctx, (ast.Store, ast.Del))}
+        self.local |= {a.arg for n in ast.walk(node) if isinstance(n, ast.arguments)
+                       for a in n.posonlyargs + n.args + n.kwonlyargs + ([n.vararg] if n.vararg else []) + ([n.kwarg] if n.kwarg else [])}
+        self.local |= {s.name for s in ast.walk(node) if isinstance(s, (ast.FunctionDef, ast.ClassDef)) and s is not node}
+        self.local |= {h.name for h in ast.walk(node) if isinstance(h, ast.ExceptHandler) and h.name}
+        self.cv = _ConstValue(ix, fi, self.local)
+        self.changed = False
+
+    def _module_const(self, name):
+        if name in self.local:
+            return None
+        try:
+            r = self.ix.resolve_in(self.fi, name)
+        except Exception:  # noqa
+            return None
+        if not r or r[0] != "value":
+            return None
+        return self.cv.named(name, r[2])
+
+    def visit_Name(self, node):
+        if not isinstance(node.ctx, ast.Load):
+            return node
+        v = self._module_const(node.id)
+        if v is None:
+            return node
+        self.changed = True
+        return ast.copy_location(v, node)
+
+    def visit_Attribute(self, node):
+        if isinstance(node.ctx, ast.Load) and isinstance(node.value, ast.Name) and node.value.id not in self.local - {"cls", "self"}:
+            base, v = node.value.id, None
+            if base in ("cls", "self") and self.fi.cls is not None:
+                v = self._class_const(self.fi.cls, node.attr)
+            else:
+                try:
+                    r = self.ix.resolve_in(self.fi, base)
+                except Exception:  # noqa
+                    r = None
+                if r and r[0] == "module" and self.ix.has_module(r[1]):
+                    rr = self.ix.resolve(r[1], node.attr)
+                    if rr and rr[0] == "value":
+                        v = self.cv.named(node.attr, rr[2])
+                elif r and r[0] == "class":
+                    v = self._class_const(r[1], node.attr)
+            if v is not None:
+                self.changed = True
+                return ast.copy_location(v, node)
+        return self.generic_visit(node)
+
+    def _class_const(self, ci, attr):
+        if attr in KNOWN_CONSTANTS or attr in self.cv.mutated or self.cv.attr_stores.get(attr, 0) != 1 or attr.startswith("__"):
+            return None
+        for c in self.ix.mro(ci):
+            if attr in c.attrs:
+                return self.cv.convert(c.attrs[attr], c.module, 0, top=True)
+        return None
+
+    def visit_Subscript(self, node):
+        node = self.generic_visit(node)
+        if not isinstance(node.ctx, ast.Load):
+            return node
+        v, sl = node.value, node.slice
+        if isinstance(v, (ast.Tuple, ast.List)) and isinstance(sl, ast.Constant) and isinstance(sl.value, int) \
+                and not any(isinstance(x, ast.Starred) for x in v.elts) and -len(v.elts) <= sl.value < len(v.elts):
+            self.changed = True
+            return ast.copy_location(v.elts[sl.value], node)
+        if isinstance(v, ast.Dict) and None not in v.keys and isinstance(sl, ast.Constant):
+            for k, val in zip(v.keys, v.values):
+                if isinstance(k, ast.Constant) and k.value == sl.value and type(k.value) is type(sl.value):
+                    self.changed = True
+                    return ast.copy_location(val, node)
+        return node
+
+    def _splice(self, elts):
+        out = []
+        for x in elts:
+            if isinstance(x, ast.Starred) and isinstance(x.value, (ast.Tuple, ast.List)) \
+                    and not any(isinstance(y, ast.Starred) for y in x.value.elts):
+                out.extend(x.value.elts)
+                self.changed = True
+            else:
+                out.append(x)
+        return out
+
+    def visit_List(self, node):
+        node = self.generic_visit(node)
+        if isinstance(node.ctx, ast.Load):
+            node.elts = self._splice(node.elts)
+        return node
+
+    visit_Tuple = visit_List
+
+    def visit_Call(self, node):
+        node = self.generic_visit(node)
+        node.args = self._splice(node.args)
+        return node
+
+
+def const_substituted(ix, fi):
+    """fi's tree as written with the package's named constants replaced by their displays (the raw tree when there are none)"""
+    got = getattr(fi, "_constsub", None)
+    if got is not None:
+        return got
+    raw = fi.raw_node
+    node = copy.deepcopy(raw)
+    t = _ConstSubst(ix, fi, raw)
+    try:
+        node = t.visit(node)
+    except RecursionError:
+        t.changed = False
+    if t.changed:
+        ast.fix_missing_locations(node)
+        fi._constsub = node
+    else:
+        fi._constsub = raw
+    return fi._constsub
+
+
 class _Positionalise(ast.NodeTransformer):
     """keyword arguments of calls to repository functions (resolved through the caller's scope) become positional, constant
     defaults in between are filled in: `get_lookup(net, pit_type="node", lookup_type="index")` is `get_lookup(net, "node", "index")`
@@ -430,7 +804,7 @@ def flatten_function(ix, fi, depth=0, stack=()):
     of calls to repository functions bound to positions"""
     raw = _flatten_helpers(ix, fi, depth, stack)
     if any(isinstance(n, ast.Call) and n.keywords for n in ast.walk(raw)):
-        node = copy.deepcopy(raw) if raw is fi.raw_node else raw
+        node = copy.deepcopy(raw) if (raw is fi.raw_node or raw is getattr(fi, "_constsub", None)) else raw
         t = _Positionalise(ix, fi)
         node = t.visit(node)
         if t.changed:
@@ -440,7 +814,7 @@ def flatten_function(ix, fi, depth=0, stack=()):
 
 
 def _flatten_helpers(ix, fi, depth=0, stack=()):
-    raw = fi.raw_node
+    raw = const_substituted(ix, fi)
     body = raw.body
     local_defs = {s.name: s for s in body if isinstance(s, ast.FunctionDef)}
     # quick exit: no call to a candidate helper at all
@@ -448,11 +822,11 @@ def _flatten_helpers(ix, fi, depth=0, stack=()):
     for n in ast.walk(raw):
         if isinstance(n, ast.Call) and isinstance(n.func, ast.Name):
             nm = n.func.id
-            if nm in local_defs or (nm.startswith("_") and not nm.startswith("__") and nm not in KNOWN_ATOMS):
+            if nm in local_defs or not is_atom(nm):
                 cand = True
                 break
         if isinstance(n, ast.Call) and isinstance(n.func, ast.Attribute) and isinstance(n.func.value, ast.Name) \
-                and n.func.value.id in ("cls", "self") and n.func.attr.startswith("_") and not n.func.attr.startswith("__"):
+                and n.func.value.id in ("cls", "self") and not is_atom(n.func.attr):
             cand = True
             break
     if not cand:
